@@ -495,7 +495,11 @@ func (e *CheckingEnvironment) recoverProgram(
 	errors.WrapPanic(func() {
 		newCode, err = e.runtimeInterface.RecoverProgram(program, location)
 	})
-	if err != nil || newCode == nil {
+	if err != nil {
+		// The recovery handler failed. Do not ignore the failure
+		panic(interpreter.WrappedExternalError(err))
+	}
+	if newCode == nil {
 		return nil, nil
 	}
 
